@@ -1245,6 +1245,12 @@ func (x *Exec) doReturn(st *State, v *ssa.Return) bool {
 			default:
 				caller.env[val] = TupleV(res)
 			}
+			if fr.afterCN != nil {
+				x.curCall, x.curArgs = val, fr.callArgs
+				x.userAsserts(st, caller, *fr.afterCN, true)
+				x.curCall, x.curArgs = nil, nil
+				return !st.dead
+			}
 		}
 		return true
 	}
